@@ -1,6 +1,5 @@
 From Coq Require Import List ZArith Bool. Import ListNotations. Open Scope Z_scope.
 Require Import SM.SemModel.
-(* A waits, B wait_timeout times out, user post wakes A, second post flushes B's stale entry *)
 Definition sch := [Wait 0 false; Step 0; Step 0; Step 0; Step 0;   Wait 1 true; Step 1; Step 1; Step 1; Step 1; Fire 1; Step 1; Step 1; Step 1; Step 1;
                    Post 2; Step 2; Step 2; Step 2; Step 2; Step 2; Step 0;   Post 3; Step 3; Step 3; Step 3; Step 3; Step 3; Step 3].
-Eval vm_compute in (let s := run (init 0) sch in (cnt s, uposts s, succ s, debt s, length (q s), apc (A s 0), apc (A s 1), apc (A s 2), apc (A s 3))).
+Eval vm_compute in (let s := run (init 0) sch in (cnt s, uposts s, succ s, (ung s, giv s, pre s, hand s, owe s), q s)).
